@@ -60,7 +60,68 @@ def _shuffled(rng, l):
     return l
 
 
-def gen_font(rng, rich=True, dense=None, collide=False):
+def markliga_glyphs(rng, between=True, prefix="ml"):
+    """A "ligature mark" composite made ONLY of mark components (propagateAnchors promotes the component whose lower-left
+    corner is nearest to the origin to base: _component_closest_to_origin / _bounds, one branch per UFO library), where the
+    corner is NOT an on-curve point: one component's left (or bottom) side is a cubic whose two off-curve points stick out by
+    B, so the curve itself only reaches 3B/4 (closed form, t = 1/2; B is a multiple of 4): its exact box and its control box
+    differ by B/4.  `between`: the other component's corner is placed so that its distance lies between the two.
+    Returns (glyph descriptions, name of the composite, exact lower-left corner of every component as Fractions)."""
+    import math
+    from fractions import Fraction
+    for _ in range(200):
+        axis = rng.choice("xy")
+        X, Y = rng.randrange(150, 320), rng.randrange(330, 520)
+        B = rng.choice([80, 120, 160, 200])
+        if B > (X if axis == "x" else Y):
+            continue
+        half = rng.choice([0, 0, Fraction(1, 2)])
+        dx, dy = rng.randrange(0, 60) + half, rng.choice([0, 50, 150])
+        if axis == "x":
+            cont = [[X + 100, Y, "line"], [X + 100, Y + 100, "line"], [X, Y + 100, "line"], [X - B, Y + 100, None], [X - B, Y, None], [X, Y, "curve"]]
+            ex, ey = Fraction(X) - Fraction(3 * B, 4) + dx, Fraction(Y) + dy
+            cx, cy = Fraction(X - B) + dx, ey
+        else:
+            cont = [[X, Y + 100, "line"], [X, Y, "line"], [X, Y - B, None], [X + 100, Y - B, None], [X + 100, Y, "curve"], [X + 100, Y + 100, "line"]]
+            ex, ey = Fraction(X) + dx, Fraction(Y) - Fraction(3 * B, 4) + dy
+            cx, cy = ex, Fraction(Y - B) + dy
+        dE, dC = ex * ex + ey * ey, cx * cx + cy * cy
+        if between:
+            ay = int(min(ey, cy)) + rng.randrange(-60, 40)
+            lo, hi = max(Fraction(0), dC - ay * ay), dE - ay * ay
+            if ay < 0 or hi <= 1:
+                continue
+            amin, amax = math.isqrt(math.floor(lo)) + 1, math.isqrt(math.ceil(hi) - 1)
+            cands = [a for a in range(amin, amax + 1) if lo < a * a < hi]
+            if not cands:
+                continue
+            ax = rng.choice(cands)
+        else:
+            ax, ay = rng.randrange(0, 300), rng.randrange(300, 700)
+        w, h = rng.randrange(60, 140), rng.randrange(60, 140)
+        adx, ady = rng.choice([0, 0, 20]), rng.choice([0, 0, 30])
+        if ax - adx < 0 or ay - ady < 0:
+            adx = ady = 0
+        box = [[ax - adx, ay - ady, "line"], [ax - adx + w, ay - ady, "line"], [ax - adx + w, ay - ady + h, "line"], [ax - adx, ay - ady + h, "line"]]
+        fl = lambda v: float(v) if v != int(v) else int(v)
+        a, b = prefix + "boxcomb", prefix + "bulgecomb"
+        comps = [[a, [1, 0, 0, 1, adx, ady]], [b, [1, 0, 0, 1, fl(dx), dy]]]
+        exact = [[Fraction(ax), Fraction(ay)], [ex, ey]]
+        if rng.random() < 0.5:
+            comps.reverse()
+            exact.reverse()
+        glyphs = [
+            {"name": a, "unicodes": [], "width": 0, "contours": [box], "components": [],
+             "anchors": [["_top", ax + w // 2, ay - 30], ["top", ax + w // 2, ay + h + 20]]},
+            {"name": b, "unicodes": [], "width": 0, "contours": [cont], "components": [],
+             "anchors": [["_top", X + 50, Y - 20 - (B if axis == "y" else 0)], ["top", X + 50, Y + 120]]},
+            {"name": a + "_" + b, "unicodes": [], "width": 0, "contours": [], "components": comps, "anchors": []},
+        ]
+        return glyphs, a + "_" + b, exact
+    raise RuntimeError("markliga_glyphs: no geometry found")
+
+
+def gen_font(rng, rich=True, dense=None, collide=False, markliga=False):
     """a font description (see ufo.py) whose generated features depend on many Python sets"""
     scripts = ["lat"]
     others = ["grk", "cyr", "heb", "ara", "dev"]
@@ -189,6 +250,13 @@ def gen_font(rng, rich=True, dense=None, collide=False):
     if "acutecomb" in byname and "gravecomb" in byname and rng.random() < 0.3:
         add("acutecomb_gravecomb", None, [], 0, [], [["acutecomb", [1, 0, 0, 1, 0, 0]], ["gravecomb", [1, 0, 0, 1, 0, 180]]])
         marks.append("acutecomb_gravecomb")
+    if markliga:
+        # a mark-only "ligature mark" whose promoted component depends on the EXACT bounds of a curve (see markliga_glyphs)
+        mg, mname, _ = markliga_glyphs(rng, between=rng.random() < 0.8)
+        for g in mg:
+            add(g["name"], None, g["contours"], 0, g["anchors"], g["components"])
+            marks.append(g["name"])
+        comps.append(mname)
 
     # kerning groups: random partition of part of the bases (also across scripts), separately per side
     fd = {"upm": 1000, "glyphs": glyphs, "info": {"familyName": "C08 Test", "styleName": "Regular", "ascender": 800, "descender": -200,
@@ -281,7 +349,7 @@ def gen_font(rng, rich=True, dense=None, collide=False):
     fd["features"] = "\n".join(head + feats) + ("\n" if head or feats else "")
     # filters / options that reach the anchored code
     filt = []
-    if comps and (collide or rng.random() < 0.7):
+    if comps and (collide or markliga or rng.random() < 0.7):
         filt.append({"name": "propagateAnchors", "pre": True})
         # cursive / caret anchors must not be PROPAGATED in this stream: the curs and gdef writers look anchors up in the
         # caller's source font, where a propagated anchor exists only if inplace=True (finding F1, see `finding_fonts`)
@@ -302,7 +370,7 @@ def gen_font(rng, rich=True, dense=None, collide=False):
     if rng.random() < 0.3:
         fd["lib"]["public.postscriptNames"] = {n: "ps_" + n.replace(".", "_") for n in list(byname)[:3] if n != ".notdef"}
     fd["_stats"] = {"scripts": sorted(scripts), "marks": len(marks), "ligas": len(ligas), "comps": len(comps), "pairs": len(kern),
-                    "groups": len(groups), "cats": mode, "lsys": lsys, "memonly": memonly, "ctx": sum(len(g.get("ctx_anchors", [])) for g in glyphs), "dense": dense, "collide": any(g["name"] == "x_combo" for g in glyphs), "filters": [f["name"] for f in filt]}
+                    "groups": len(groups), "cats": mode, "lsys": lsys, "memonly": memonly, "ctx": sum(len(g.get("ctx_anchors", [])) for g in glyphs), "dense": dense, "collide": any(g["name"] == "x_combo" for g in glyphs), "markliga": bool(markliga), "filters": [f["name"] for f in filt]}
     return fd
 
 
@@ -595,6 +663,8 @@ def run_worker(case, hashseed, timeout=300):
     env = dict(os.environ)
     env["PYTHONHASHSEED"] = str(hashseed)
     env.setdefault("SOURCE_DATE_EPOCH", "1700000000")
+    if case.get("epoch") is not None:     # the value that pins the timestamps is part of the case (0 = the epoch itself, ...)
+        env["SOURCE_DATE_EPOCH"] = str(case["epoch"])
     env["PYTHONWARNINGS"] = "ignore"
     p = subprocess.run([sys.executable, os.path.abspath(__file__), "worker"], input=json.dumps(case), env=env,
                        stdout=subprocess.PIPE, stderr=subprocess.PIPE, text=True, timeout=timeout)
